@@ -28,6 +28,12 @@ type SBinary struct {
 	Op   string
 	X, Y SExpr
 }
+// WiringClause: for every call of Callee in the function (also inside literals and go statements)
+// the source text of Lhs equals that of Rhs after replacing $argN by the N-th argument's text.
+type WiringClause struct {
+	Callee, Lhs, Rhs, Src string
+}
+
 type SCall struct {
 	Fun  string // possibly qualified "pkg.Name"
 	Args []SExpr
@@ -393,6 +399,8 @@ type Contract struct {
 	Counts   string // ghost call counter name
 	Opaque   bool // never inline even if no ensures
 	Delegates string // closure [lit]: the literal's body is exactly `return <this callee>(its own parameters / captured variables)`
+	Wiring    []WiringClause // syntactic relations between the arguments of every call of a callee
+	FreshElems []string      // local maps/slices whose elements are only ever assigned fresh make(...) values
 	CallsOnly map[string][]string // package path -> the only functions of that package the body may call
 	InlineAtCallers bool
 	Body     SExpr  // pred / pure body
@@ -694,6 +702,18 @@ func ReadContractFile(path, pkgPath string) ([]*Contract, error) {
 			case "counts":
 				// every call of this function increments the ghost counter ghostCount("<name>")
 				tgt.Counts = strings.TrimSpace(rest)
+			case "wiring":
+				// wiring <callee>: <template> == <template>
+				j := strings.Index(rest, ":")
+				k := strings.Index(rest, "==")
+				if j < 0 || k < j {
+					return nil, fmt.Errorf("%s:%d: wiring <callee>: <template> == <template>", path, l.n)
+				}
+				tgt.Wiring = append(tgt.Wiring, WiringClause{Callee: strings.TrimSpace(rest[:j]), Lhs: strings.TrimSpace(rest[j+1 : k]), Rhs: strings.TrimSpace(rest[k+2:]), Src: rest})
+			case "fresh-elements":
+				for _, nm := range strings.Split(rest, ",") {
+					tgt.FreshElems = append(tgt.FreshElems, strings.TrimSpace(nm))
+				}
 			case "delegates":
 				tgt.Delegates = strings.TrimSpace(rest)
 			case "calls-only":
